@@ -43,7 +43,7 @@ CHECKS["C09"] = {
 CHECKS["C11"] = {
     "script": "c11.py", "category": "exploration", "engine": "enum",
     "technique": "bounded-exhaustive enumeration on the real path/cache-URL/rendezvous code against independent references (AMP cache URL spec steps, base64url reader), recording RoundTripper and on-the-wire observation",
-    "text": "DecodePath over all data strings <=3 over 6 boundary bytes x all paddings <=3 tokens; EncodePath with pinned randomness; malformed paths; CacheURL over a host-label grammar (IDN, hyphens at 3-4, 63/64-byte labels) x schemes x ports x userinfo x paths x queries x cache URLs x content types against a reference of the AMP spec + published vectors; fronting (URL.Host = front, Host header = origin) at the RoundTripper and on the wire; status x body-size matrix around the 100 kB limit for HTTP and AMP.",
+    "text": "DecodePath over all data strings <=3 over 6 boundary bytes x all paddings <=3 tokens; EncodePath with pinned randomness; malformed paths; CacheURL over a host-label grammar (IDN, hyphens at 3-4, 63/64-byte labels) x schemes x ports x userinfo x paths x queries x cache URLs x content types against a reference of the AMP spec + published vectors (fallback: SHA-256 of the domain as written or of its A-label form); fronting (URL.Host = front, Host header = origin) at the RoundTripper and on the wire; status x body-size matrix around the 100 kB limit for HTTP and AMP.",
     "design_ref": "§3 C11", "note": ENUM_NOTE + " The endpoint-equivalence clause (AMP endpoint == POST endpoint) is decided by the broker SCHED harness (c02 explores the amp entry point with the same oracle) and, over poll sizes up to the 100 000 byte limit, by a sequential enumeration through both handlers; redirect answers (3xx + Location, then 200) are enumerated for all rendezvous variants; x/net/idna is the trusted punycode primitive; slash normalisation by CacheURL is accepted (see DESIGN.md).",
 }
 CHECKS["C12"] = {
@@ -55,7 +55,7 @@ CHECKS["C12"] = {
 CHECKS["C17"] = {
     "script": "c17.py", "category": "model_checking",
     "technique": "stateless model checking of the real turbotunnel adapters under a controlled scheduler (exhaustive DFS over schedules with DPOR + sleep sets, virtual time) with scripted carriers",
-    "text": U + " of RedialPacketConn with 1-3 scripted carriers x failure scripts {none, read, write, both, late write} x dial end {error, block} x close instants (no error before Close/dial failure, at most one carrier active, every carrier closed, no goroutine of the package alive after Close, packets unmodified and in order despite buffer scribbling); QueuePacketConn: all operation sequences <=5(6) against a FIFO reference, overflow run, concurrent feeders/reader/writer/closer; ClientMap with its real sweeper on virtual time (retention until T-1ns, discarded and closed by 1.5T); clientMapInner with explicit clock: breadth-first to a fixpoint with heap/index invariants.",
+    "text": U + " of RedialPacketConn with 1-3 scripted carriers x failure scripts {none, read, write, both, late write} x dial end {error, block} x close instants (no error before Close/dial failure, at most one carrier active, every carrier closed, no goroutine of the package alive after Close, packets unmodified and in order despite buffer scribbling); QueuePacketConn: all operation sequences <=5(6) against a FIFO reference, overflow run, concurrent feeders/reader/writer/closer; ClientMap with its real sweeper on virtual time (first seen at 5 instants x refreshed after {never, 2 ns, 0.5 s, 0.999 s, T/4, T/2, T/2+1, T-1}: retention until T-1ns after the last sighting, discarded and closed by 1.5T); clientMapInner with explicit clock (steps T/8, T/2, T-1ns, T): breadth-first to a fixpoint with heap/index invariants and exact last-seen times.",
     "design_ref": "§3 C17", "note": SCHED_NOTE,
 }
 CHECKS["C01"] = {
@@ -67,7 +67,7 @@ CHECKS["C01"] = {
 CHECKS["C05"] = {
     "script": "c05.py", "category": "model_checking",
     "technique": "tier 1: stateless model checking of the real turbotunnelMode + QueuePacketConn + ClientMap + clientIDAddrMap under a controlled scheduler (DPOR + sleep sets, virtual time) with in-memory carriers and a KCP stand-in; tier 2: sequential enumeration of token variants and carrier schedules against the real listener (Transport.Listen, ServeHTTP, kcp-go, smux) over loopback WebSockets",
-    "text": U + " for 1 session x 10 carrier schedules (cut at every byte class + reconnect, overlapping carriers, idle gaps 30/59/61/95 s with a packet written during the gap) and for 2-3 concurrent sessions; oracle: every packet from ReadFrom was framed on a carrier that presented that ClientID (byte-identical, exactly once, none lost), downstream packets leave only through carriers of their session in FIFO order and survive gaps below the retention time, carrier handlers and their goroutines end, the address looked up at accept time is that of the most recent carrier of that ClientID and never another session's. Cuts surface as EOF or as a non-EOF error. Tier 2: 75 carriers without the token (64 bit flips, prefixes, ...) each followed by a full client stack: carrier ended, no connection produced; 96 scenarios of 1-3 concurrent real sessions over 8 carrier schedules x payload sizes and bursts of 8 simultaneous sessions: exactly one accepted connection per session, exact bytes both ways, right client address.",
+    "text": U + " for 1 session x 10 carrier schedules (cut at every byte class + reconnect, overlapping carriers, idle gaps 30/59/61/95 s with a packet written during the gap) and for 2-3 concurrent sessions; oracle: every packet from ReadFrom was framed on a carrier that presented that ClientID (byte-identical, exactly once, none lost), downstream packets leave only through carriers of their session in FIFO order and survive gaps below the retention time, carrier handlers and their goroutines end, the address looked up at accept time is that of the most recent carrier of that ClientID and never another session's. Cuts surface as EOF or as a non-EOF error. Tier 2: 75 carriers without the token (64 bit flips, prefixes, ...) each followed by a full client stack: carrier ended, no connection produced; 96 scenarios of 1-3 concurrent real sessions over 8 carrier schedules x payload sizes and bursts of 8 simultaneous sessions: exactly one accepted connection per session, exact bytes both ways, right client address; a session whose ClientID the (capacity-2) address map has forgotten is given no address.",
     "design_ref": "§3 C05", "note": SCHED_NOTE + " Tier 2 runs in real time: its oracles compare bytes and counts, missing progress is believed only after 4 runs, loopback trouble marks the run incomplete; the 30-95 s gaps exist only in tier 1 (virtual time).",
 }
 CHECKS["C06"] = {
@@ -80,7 +80,7 @@ CHECKS["C16"] = {
     "script": "c16.py", "category": "model_checking",
     "technique": "stateless model checking (DPOR + sleep sets, virtual time) of the real tokens_t/runSession/datachannelHandler with a scripted broker and two build-time seams for the pion-facing functions, explicit enumeration of session-outcome sequences",
     "text": U + " for capacity in {1,2,3} x all sequences of <=3 (4) session outcomes over 10 exit paths incl. the data channel opening in the instant of the 20 s timeout, sessions overlapping; oracle: slots in use <= capacity, every reported Clients value a multiple of 8 and <= slots in use, after the sequence count()==0 with an empty token channel, nobody blocked in a token operation, the proxy keeps polling.",
-    "design_ref": "§3 C16", "note": SCHED_NOTE + " Seams: makePeerConnectionFromOffer (real unconnected PeerConnection + scripted OnDataChannel contract) and copyLoop; Start()'s polling loop is copied verbatim. Harness c16-load: capacity 16 with clients leaving while the proxy polls. Tier 2 (real time): the real SnowflakeProxy.Start with real pion clients in the same process (echo, close at open, never answers, stalls during a download, unreachable relay, undecodable offer; capacities 1-3); it marks itself incomplete where in-process WebRTC cannot connect.",
+    "design_ref": "§3 C16", "note": SCHED_NOTE + " Seams: makePeerConnectionFromOffer (real unconnected PeerConnection + scripted OnDataChannel contract) and copyLoop; Start()'s polling loop is copied verbatim. Harness c16-load: capacity 16 with clients leaving while the proxy polls. Tier 2 (real time): the real SnowflakeProxy.Start with real pion clients in the same process (echo, close at open, never answers, stalls during a download, unreachable relay, relay that accepts and never answers the WebSocket handshake, undecodable offer; capacities 1-3); it marks itself incomplete where in-process WebRTC cannot connect.",
 }
 CHECKS["C07"] = {
     "script": "c07.py", "category": "exploration", "engine": "enum",
@@ -103,19 +103,19 @@ CHECKS["C14"] = {
 CHECKS["C15"] = {
     "script": "c15.py", "category": "model_checking",
     "technique": "stateless model checking of the real Peers/connectLoop/WebRTCPeer.Close under a controlled scheduler (DPOR + sleep sets, virtual time) + enumeration of constructor failure kinds with real pion",
-    "text": U + " of connectLoop, a popping data path, peers closing on their own and one or two End callers for max in {1,2(,3)} x scripted Catch outcomes {now, 3 s, error}; oracle: live peers <= max, Pop never returns a peer whose Close completed before the call, every End returns and never panics, no Catch begins and connectLoop stops after End, all peers closed. Plus NewWebRTCPeerWithEvents (real pion) over 6 ICE configurations x 20 rendezvous failures and SnowflakeConn.Close once/twice/three times/concurrently x {healthy, session dead, stream closed, packet conn closed, collection ended} on a real KCP+smux session with postconditions (collection stopped, no peer held, session and packet conn closed).",
+    "text": U + " of connectLoop, a popping data path, peers closing on their own and one or two End callers for max in {1,2(,3)} x scripted Catch outcomes {now, 3 s, error, error after 3 s}; oracle: live peers <= max, Pop never returns a peer whose Close completed before the call, every End returns and never panics, no Catch begins after End returned, no Catch begins once an earlier one has ended after the stop, connectLoop stops, all peers closed. Plus NewWebRTCPeerWithEvents (real pion) over 6 ICE configurations x 20 rendezvous failures and SnowflakeConn.Close once/twice/three times/concurrently x {healthy, session dead, stream closed, packet conn closed, collection ended} on a real KCP+smux session with postconditions (collection stopped, no peer held, session and packet conn closed); a broker that accepts the connection and never answers (every rendezvous variant): Negotiate gives up within 60 s.",
     "design_ref": "§3 C15", "note": SCHED_NOTE + " Peers in the scheduled harness carry no pion objects (as in the repository's own tests); process exit status is not decided.",
 }
 CHECKS["C19"] = {
     "script": "c19.py", "category": "model_checking",
     "technique": "exhaustive interleaving exploration of the rounded counter's atomic operations with a brute-force linearizability check; driven-traffic enumeration through the real IPC calls under virtual time; exhaustive binning check; journal enumeration with an injected clock",
-    "text": "roundedCounter: base in {0,7,8} x 2-3 threads x 1-2 Inc + a reader, every interleaving with <=3 (4) preemptions, no reduction, history linearizable w.r.t. 'n++; read=ceil8(n)' and final value = ceil8(total); metrics log lines and rounded prometheus counters after n in {0,1,7,8,9,16,17} events of 7 kinds; binCount(n) for all n <= 2^20; unique-address figures for all poll sequences <=2 (3) over 3 addresses x 5 types x 2 NATs; journal: chunkings of sets of size 0..64 into <=3 overlapping chunks x all windows on chunk edges +-1 ns (exact), 10^3 and 10^5 addresses (within 2 %), no address text in the file.",
+    "text": "roundedCounter: base in {0,7,8} x 2-3 threads x 1-2 Inc + a reader, every interleaving with <=3 (4) preemptions, no reduction, history linearizable w.r.t. 'n++; read=ceil8(n)' and final value = ceil8(total); metrics log lines and rounded prometheus counters after n in {0,1,7,8,9,16,17} events of 7 kinds, then {0,1,9} events in the next period (the broker's own ticker prints and zeroes on virtual time); binCount(n) for all n <= 2^20; unique-address, per-country and per-NAT figures for all poll sequences <=2 (3) over 3 addresses x 5 types x 2 NATs followed by a second period {nobody, the first proxy again, a new proxy + the first}; journal: chunkings of sets of size 0..64 into <=3 overlapping chunks x all windows on chunk edges +-1 ns (exact), 10^3 and 10^5 addresses (within 2 %), no address text in the file.",
     "design_ref": "§3 C19", "note": SCHED_NOTE + " Linearizability is checked by brute force over the recorded call/return history instead of porcupine (histories have <= 8 operations). Journal: also with a flush failing once; every chunk must cover the moments at which its addresses were recorded.",
 }
 CHECKS["C20"] = {
     "script": "c20.py", "category": "model_checking",
-    "technique": "the SCHED harnesses of the other properties rebuilt with -race and explored by the controlled scheduler (DPOR + sleep sets) in race mode: Go's happens-before detector with the scheduler's own hand-offs hidden (RaceDisable brackets, norace engine); plus one free-running race-detector pass over the real server stack (C05 tier-2 scenarios)",
-    "text": "Broker herds (2 proxies x 2 clients at timeout boundaries, all entry points), the metrics ticker firing while requests are in flight, the rounded counter, RedialPacketConn with failing carriers, QueuePacketConn users, Peers/connectLoop/End, server carriers of 2 sessions, the end-to-end composition with faults, proxy slot sessions, concurrent log writers: every explored execution runs under the race detector; a report counts when both racing accesses are in snowflake (non-harness) source.",
+    "technique": "the SCHED harnesses of the other properties rebuilt with -race and explored by the controlled scheduler (DPOR + sleep sets) in race mode: Go's happens-before detector with the scheduler's own hand-offs hidden (RaceDisable brackets, norace engine); plus free-running race-detector passes over the real-stack harnesses (C05, C01 and C16 tier-2 scenarios)",
+    "text": "Broker herds (2 proxies x 2 clients at timeout boundaries, all entry points), the metrics ticker firing while requests are in flight, the rounded counter, RedialPacketConn with failing carriers, QueuePacketConn users, Peers/connectLoop/End, server carriers of 2 sessions, the end-to-end composition with faults, proxy slot sessions, the proxy's per-connection traffic logger (two data-path threads + the logger goroutine + an OnClose-style reader; summaries must pair byte totals with the event counts of the same instant), concurrent log writers: every explored execution runs under the race detector; a report counts when both racing accesses are in snowflake (non-harness) source.",
     "design_ref": "§2.5, §3 C20", "note": SCHED_NOTE + " A race is only reported if both accesses occur in some explored execution (budgeted, not exhaustive for the larger harnesses); third-party stacks are outside the harnesses; one recorded finding (ClientMap sweeper close vs QueuePacketConn.WriteTo send) is listed in known_findings.txt.",
 }
 CHECKS["C08"] = {
